@@ -27,7 +27,9 @@ REGISTRY = dict(
           "XY), max_duration == target_times[-1], kept the requested qubits present in the channel in request order. "
           "Full for the ordered-field reading. Model tied to the code by bit-exact binary64 correspondence incl. the "
           "raising branches; Pulser's own sampling (to_nested_dict) is outside the model (contract checked on real "
-          "sequences)."),
+          "sequences). Not a theorem, checked on the real code every run: the drives of every trajectory yielded by "
+          "PulserData.get_sequences, as the state-vector back-end consumes them one after the other (in-place zeroing "
+          "of badly prepared atoms), equal the interpolated samples of that trajectory for every well-prepared atom."),
     note=("Trusted: Lean kernel + propext/Classical.choice/Quot.sound; Mathlib; hand-written Model.Extract/Model.Pchip "
           "tied by correspondence only; IEEE rounding outside the theorems; pulser.sampler output shape assumed "
           "(checked on real sequences each run)."),
@@ -349,6 +351,161 @@ def pulser_cases(rng, n):
     return out
 
 
+# ------------------------------------------------------------------ drives as the back-end consumes them
+def gen_consumer_case(rng, i):
+    """A real Pulser sequence + noise model + n_trajectories for `PulserData.get_sequences`, consumed trajectory by
+    trajectory the way SVBackend does (run k, then pull k+1)."""
+    noise = ["spam", "spam", "spam", "spam+amp", "none", "amp"][i % 6]
+    return dict(family="consumer", natoms=rng.choice([2, 3, 4, 4]), noise=noise,
+                spe=rng.choice([0.3, 0.4, 0.5, 0.6]), amp_sigma=rng.choice([0.05, 0.1]),
+                ntraj=rng.choice([2, 3, 5, 8]) if noise != "none" else 1,
+                dt=rng.choice([1.0, 2.0, 0.5, 4.0]), pulse=rng.choice(["blackman", "const", "ramp", "two"]),
+                dur=rng.choice([16, 24, 40]), consumer="run" if i % 12 == 0 else "init_dark_qubits",
+                npseed=rng.randrange(2 ** 31))
+
+
+def _consumer_sequence(case):
+    import pulser
+    reg = pulser.Register.from_coordinates([[8.0 * j, 0.0] for j in range(case["natoms"])], prefix="q")
+    seq = pulser.Sequence(reg, pulser.MockDevice)
+    seq.declare_channel("ryd", "rydberg_global")
+    d = case["dur"]
+    amp = {"blackman": pulser.BlackmanWaveform(d, 2.0), "const": pulser.ConstantWaveform(d, 3.0),
+           "ramp": pulser.RampWaveform(d, 0.5, 4.0), "two": pulser.BlackmanWaveform(d, 1.5)}[case["pulse"]]
+    seq.add(pulser.Pulse(amp, pulser.RampWaveform(d, -3.0, 3.0), 0.3), "ryd")
+    if case["pulse"] == "two":
+        seq.add(pulser.Pulse.ConstantPulse(16, 2.0, -1.0, 0.7), "ryd")
+    return seq
+
+
+def _reference_columns(samples, qubit_ids, tt):
+    """SciPy PCHIP of one trajectory's own Pulser samples at the step mid-points (amplitude clamped at 0)."""
+    import numpy as np
+    from scipy.interpolate import PchipInterpolator
+    loc = samples.to_nested_dict(all_local=True, samples_type="tensor")["Local"]
+    chan = loc["ground-rydberg"] if "ground-rydberg" in loc else loc["XY"]
+    mids = np.array([0.5 * (a + b) for a, b in zip(tt, tt[1:])])
+    T = int(samples.max_duration)
+    out = {}
+    for name in KINDS:
+        cols, scales = [], []
+        for qid in qubit_ids:
+            y = np.asarray(chan[qid][name].tolist(), dtype=float).real
+            r = PchipInterpolator(np.arange(T, dtype=float), y, extrapolate=True)(mids)
+            cols.append(np.maximum(r, 0.0) if name == "amp" else r)
+            scales.append(float(np.abs(y).max()) + 1e-300)
+        out[name] = (cols, scales)
+    return out, mids
+
+
+def run_consumer_case(case):
+    """Iterate the real `PulserData.get_sequences()`; after each yielded SequenceData let the state-vector back-end
+    consume it (the real `SVBackendImpl.init_dark_qubits`, or a whole `SVBackend._run_from_sequence_data`), then
+    check every yielded SequenceData — at the moment it is handed out — against the interpolated samples of its own
+    trajectory for all well-prepared atoms, and that trajectories with different bad-atom patterns do not share
+    the storage the consumer mutates. Returns (failure message or None, stats)."""
+    import dataclasses
+    import types
+    import warnings
+    import numpy as np
+    import torch
+    from pulser.noise_model import NoiseModel
+    from pulser.backend import BitStrings
+    from harness import compat
+    import emu_base.pulser_adapter as pa
+    from emu_sv.sv_backend_impl import SVBackendImpl
+    from emu_sv.sv_backend import SVBackend
+    compat.install()
+    np.random.seed(case["npseed"])
+    torch.manual_seed(case["npseed"])
+    nm = {"none": NoiseModel(), "spam": NoiseModel(state_prep_error=case["spe"]),
+          "amp": NoiseModel(amp_sigma=case["amp_sigma"]),
+          "spam+amp": NoiseModel(state_prep_error=case["spe"], amp_sigma=case["amp_sigma"])}[case["noise"]]
+    seq = _consumer_sequence(case)
+    with warnings.catch_warnings():
+        warnings.simplefilter("ignore")
+        config = compat.sv_config(noise_model=nm, n_trajectories=case["ntraj"],
+                                  observables=[BitStrings(evaluation_times=[1.0])])
+        pd = pa.PulserData(sequence=seq, config=config, dt=case["dt"])
+        refs, owners = [], []
+        for idx, sw in enumerate(pd.hamiltonian.noisy_samples):
+            refs.append(_reference_columns(sw.samples, pd.qubit_ids, pd.target_times)[0])
+            owners += [idx] * sw.reps
+        n = case["natoms"]
+        U = torch.zeros(n, n, dtype=torch.float64)
+        for a in range(n):
+            for b in range(n):
+                if a != b:
+                    U[a, b] = 5420158.53 / (8.0 * abs(a - b)) ** 6
+        seen = []          # (owner, bad_atoms, data_ptrs)
+        keep = []
+        stats = dict(yielded=0, patterns=set(), good_columns=0)
+        for k, sd in enumerate(pd.get_sequences()):
+            if k >= len(owners):
+                return f"get_sequences yielded more than the {len(owners)} requested trajectory repetitions", stats
+            stats["yielded"] += 1
+            stats["patterns"].add(tuple(sd.bad_atoms))
+            ref = refs[owners[k]]
+            for name, got in zip(KINDS, (sd.omega, sd.delta, sd.phi)):
+                if got.shape != (len(pd.target_times) - 1, n):
+                    return f"trajectory {k}: {name} has shape {tuple(got.shape)}", stats
+                cols, scales = ref[name]
+                for j in range(n):
+                    if sd.state_prep_error > 0.0 and sd.bad_atoms[j]:
+                        continue       # badly prepared atoms are dark: the back-end zeroes their drive itself
+                    stats["good_columns"] += 1
+                    g = got[:, j]
+                    err = float((g.real - torch.as_tensor(cols[j])).abs().max()) + float(g.imag.abs().max())
+                    if err > REL * scales[j] * 8:
+                        kk = int((g.real - torch.as_tensor(cols[j])).abs().argmax())
+                        return (f"trajectory {k} (bad_atoms={tuple(sd.bad_atoms)}), after the back-end consumed the "
+                                f"previous {k} trajectories: well-prepared atom {pd.qubit_ids[j]} gets {name} = "
+                                f"{g[kk].real.item()!r} in step {kk}, the interpolated Pulser sample of this trajectory is "
+                                f"{float(cols[j][kk])!r} (max deviation {err:.3g})"), stats
+            ptrs = (sd.omega.data_ptr(), sd.delta.data_ptr(), sd.phi.data_ptr())
+            if sd.state_prep_error > 0.0:
+                for (o2, b2, p2) in seen:
+                    if o2 != owners[k] and tuple(b2) != tuple(sd.bad_atoms) and set(p2) & set(ptrs):
+                        return (f"trajectory {k} (bad_atoms={tuple(sd.bad_atoms)}) shares the storage of its drive tensors "
+                                f"with an earlier trajectory of a different state-preparation pattern {tuple(b2)}; "
+                                f"SVBackendImpl.init_dark_qubits zeroes bad-atom columns in place"), stats
+            keep.append((sd.omega, sd.delta, sd.phi))   # keep them alive: a freed tensor's address is reused
+            seen.append((owners[k], tuple(sd.bad_atoms), ptrs))
+            # the back-end consumes this trajectory before the next one is requested
+            if case["consumer"] == "run":
+                SVBackend._run_from_sequence_data(
+                    dataclasses.replace(sd, interaction_matrix=pa._InteractionMatrixCallable(U, U, 0.0)), config)
+            else:
+                stub = types.SimpleNamespace(_data=sd, interaction_matrix=sd.interaction_matrix,
+                                             omega=sd.omega, delta=sd.delta, phi=sd.phi)   # as SVBackendImpl.__init__ binds them
+                SVBackendImpl.init_dark_qubits(stub)
+        if stats["yielded"] != len(owners):
+            return f"get_sequences yielded {stats['yielded']} SequenceData for {len(owners)} requested repetitions", stats
+    return None, stats
+
+
+def consumer_family(rep, rng, n, stop_at_first=False):
+    for i in range(n):
+        case = gen_consumer_case(rng, i)
+        try:
+            msg, stats = run_consumer_case(case)
+        except Exception as e:
+            if type(e).__name__ in ("ImportError", "ModuleNotFoundError"):
+                rep.notes.append(f"consumer family skipped: {e}")
+                return False
+            msg, stats = f"get_sequences / state-vector consumer raised {type(e).__name__}: {e}", dict(patterns=set(), yielded=0)
+        rep.hist("consumer_noise", case["noise"])
+        rep.hist("consumer_distinct_bad_patterns", len(stats.get("patterns", ())))
+        rep.count("consumer_trajectories", stats.get("yielded", 0))
+        rep.case(key=("consumer", json.dumps(case, sort_keys=True)), nontrivial=len(stats.get("patterns", ())) > 1,
+                 trace=False)
+        if msg:
+            rep.fail(msg, dict(case))
+            if stop_at_first:
+                return True
+    return False
+
+
 # ------------------------------------------------------------------ check
 def check(rep: Report, tier: str, seed: int) -> None:
     import torch
@@ -359,7 +516,9 @@ def check(rep: Report, tier: str, seed: int) -> None:
                 "shuffled order, key ground-rydberg / XY, dt in {0.125,...,10} below and above 1 ns plus evaluation times "
                 "inside the last ns, complex samples with zero, tiny and non-zero imaginary part; malformed: no/two/"
                 "unknown interaction keys, max_duration != target_times[-1], empty grid, wrong sample length; plus real "
-                "Pulser sequences (Blackman, constant, ramp, interpolated, composite, global + local channel). "
+                "Pulser sequences (Blackman, constant, ramp, interpolated, composite, global + local channel); plus the real "
+                "PulserData.get_sequences() on 2-4 atoms with SPAM / amplitude / no noise and 1-8 trajectories, each "
+                "yielded SequenceData consumed by the real state-vector back-end before the next one is pulled. "
                 "non-trivial = successful call with at least one kept qubit and two steps")
     rep.assumptions = [
         "pulser.sampler's to_nested_dict(all_local=True, samples_type='tensor') contract (keys, float64 tensors of length "
@@ -416,6 +575,7 @@ def check(rep: Report, tier: str, seed: int) -> None:
                               + json.dumps(_ser(case))[:500])
         rep.extra["correspondence_disagreements"] = dis
         rep.extra["exactness"] = "bit-exact (0 ulp, sign of zero ignored) for every entry of Omega, delta, phi; error kinds equal"
+    consumer_family(rep, seeded(seed * 7919 + 2222), 18 if tier == "quick" else 240)
     if rep.broken and not rep.unknown_failing():
         search(rep, seed, 1500 if tier == "quick" else 20000)
 
@@ -424,6 +584,8 @@ def search(rep: Report, seed: int, n: int) -> None:
     """Failing-input search on the real code: the oracle on grids with many mid-points beyond the last sample
     (dt < 1, steep final ramps) and on non-negative samples with flat ends."""
     rng = seeded(seed * 104729 + 22)
+    if consumer_family(rep, rng, 60, stop_at_first=True):
+        return
     for i in range(n):
         case = gen_case(rng, i)
         case["kind"] = "search"
@@ -457,8 +619,13 @@ def replay(rep: Report, path: str) -> int:
     for f in data.get("failing_inputs", []):
         d = f["data"]
         case = dict(d)
-        case["qubits"] = [(q[0], q[1]) for q in d["qubits"]]
         try:
+            if d.get("family") == "consumer":
+                msg, _ = run_consumer_case(case)
+                print("replay:", msg or "property holds on this input now")
+                bad += bool(msg)
+                continue
+            case["qubits"] = [(q[0], q[1]) for q in d["qubits"]]
             status, res = run_impl(case)
             msg = oracle(case, status, res)
         except Exception as e:
